@@ -32,31 +32,13 @@ def strategy(tier, flags):
     })
 
 
-def _scope(nstates, single_start):
-    states = list(range(nstates))
-    possible = [(p, a, q) for p in states for a in ("a", None) for q in states]
-    subsets = lambda xs: itertools.chain.from_iterable(
-        itertools.combinations(xs, k) for k in range(len(xs) + 1))
-    start_opts = [[s] for s in states] if single_start else [list(x) for x in subsets(states)]
-    final_opts = [list(x) for x in subsets(states)]
-    idx = 0
-    for mask in range(2 ** len(possible)):
-        trans = [list(possible[i]) for i in range(len(possible)) if mask >> i & 1]
-        for starts in start_opts:
-            for finals in final_opts:
-                yield idx, {"fa": {"cls": "enfa", "how": "mut", "order": "tsf", "trans": trans,
-                                   "starts": starts, "finals": finals}, "bounds": [2, 3]}
-                idx += 1
-
-
 def exhaustive(tier, shard, nshards):
-    for idx, case in _scope(2, False):
-        if idx % nshards == shard:
-            yield case
+    from vlib.scope import enfa_scope, sharded
+    for d in sharded(enfa_scope(2, False), shard, nshards):
+        yield {"fa": d, "bounds": [2, 3]}
     if tier == "thorough":
-        for idx, case in _scope(3, True):
-            if idx % nshards == shard:
-                yield case
+        for d in sharded(enfa_scope(3, True), shard, nshards):
+            yield {"fa": d, "bounds": [2, 3]}
 
 
 def run_case(case):
